@@ -627,6 +627,59 @@ pub fn c03_case(fam: &str, idx: usize, seed: u64) -> Option<Case> {
             let desc = format!("{} size={} cancel at e{} ({:?}) then blackout [{}]", k.describe(), size, who, sc.scripts[0].trig, rules_desc(&sc.rules));
             Some(Case::from(sc, &k, desc, false))
         }
+        "primseq" => {
+            // sequences of user primitives (cancel, suspend, resume, prompts) at either entity at random points of the
+            // exchange, with the link going dark at a random point: whatever the order, every transaction that is
+            // not left suspended must end
+            let mut rng = Rng::derive(seed, 305, idx as u64);
+            let mut k = rand_knobs(&mut rng, false);
+            let t = C03_TIMERS[rng.usize(C03_TIMERS.len())];
+            k.ti = t.0;
+            k.ta = t.1;
+            k.tn = t.2;
+            k.limit = t.3;
+            k.seg = 32;
+            let size = *rng.pick(&[0usize, 40, 100, 200]);
+            let cl = rng.below(5);
+            let c = content(&mut rng, size, cl, 32, 1);
+            let mut sc = two_party(&case, rng.next_u64(), &k, c);
+            let n0 = first_pass_len(size, 32) + 2;
+            let who = rng.usize(2);
+            let seqs: [&[PrimKind]; 8] = [
+                &[PrimKind::Cancel, PrimKind::Suspend, PrimKind::Resume],
+                &[PrimKind::Suspend, PrimKind::Cancel],
+                &[PrimKind::Suspend, PrimKind::Resume, PrimKind::Cancel],
+                &[PrimKind::Suspend, PrimKind::Resume, PrimKind::Suspend, PrimKind::Resume],
+                &[PrimKind::Cancel, PrimKind::Cancel],
+                &[PrimKind::PromptNak, PrimKind::Suspend, PrimKind::Resume],
+                &[PrimKind::Suspend, PrimKind::PromptKeepAlive, PrimKind::Resume, PrimKind::Cancel],
+                &[PrimKind::Resume, PrimKind::Cancel, PrimKind::Resume],
+            ];
+            let seq = seqs[rng.usize(seqs.len())];
+            let trig = match rng.below(3) {
+                0 => Trigger::AfterEmit(0, rng.usize(n0)),
+                1 => Trigger::AfterArrive(1, rng.usize(n0.saturating_sub(1).max(1))),
+                _ => Trigger::AfterArrive(0, rng.usize(3)),
+            };
+            let mut d = 0u64;
+            for p in seq {
+                d += *rng.pick(&[0u64, 1, 5, 300, 1500, 4000]);
+                let e = if matches!(p, PrimKind::PromptNak | PrimKind::PromptKeepAlive) { 0 } else { who };
+                sc.scripts.push(Script { trig: trig.clone(), delay_ms: d, act: Act::Prim(e, *p, 0) });
+            }
+            match rng.below(4) {
+                0 => sc.rules.push(Rule { from: 1, to: 0, m: Matcher::FromIdx(rng.usize(4)), a: Action::Drop }),
+                1 => sc.rules.push(Rule { from: 0, to: 1, m: Matcher::FromIdx(rng.usize(n0 + 2)), a: Action::Drop }),
+                2 => {
+                    sc.rules.push(Rule { from: 1, to: 0, m: Matcher::FromIdx(rng.usize(4)), a: Action::Drop });
+                    sc.rules.push(Rule { from: 0, to: 1, m: Matcher::FromIdx(rng.usize(n0 + 2)), a: Action::Drop });
+                }
+                _ => {}
+            }
+            sc.probe = true;
+            let desc = format!("{} size={} primitives {:?} at e{} from {:?} faults=[{}]", k.describe(), size, seq, who, trig, rules_desc(&sc.rules));
+            Some(Case::from(sc, &k, desc, false))
+        }
         "prompt" => {
             // the sending user prompts (NAK / keep-alive) at arbitrary points, including while the receiver is
             // already waiting for the ACK of its Finished PDU (which the link keeps losing)
@@ -713,7 +766,15 @@ pub fn judge_c03(info: &Info, log: &RunLog, rep: &mut Report) {
         let tr = tr.unwrap();
         let k = &info.knobs[ent];
         // exemptions named by the property
-        let user_suspended = d.prims(ent, tr).iter().any(|p| p.2 == PrimKind::Suspend && p.3);
+        // suspended by the user and not resumed since (a cancel also ends a suspension)
+        let user_suspended = {
+            let pr = d.prims(ent, tr);
+            let last_sus = pr.iter().filter(|p| p.2 == PrimKind::Suspend && p.3).map(|p| p.0).max();
+            match last_sus {
+                None => false,
+                Some(ls) => !pr.iter().any(|p| p.0 > ls && p.3 && matches!(p.2, PrimKind::Resume | PrimKind::Cancel)),
+            }
+        };
         let lenient_handler = k.handlers.iter().any(|(_, a)| matches!(a, FaultHandlerAction::Ignore | FaultHandlerAction::Suspend));
         if user_suspended || lenient_handler {
             rep.count("c03_tasks_exempt");
@@ -764,7 +825,7 @@ pub fn run_c03(tier: &str, seed: u64, replay: Option<&str>) -> (Meta, Report) {
     let meta = Meta {
         property: "C03",
         level: "fault_enumeration",
-        rule: "blackout = link cut (e0->e1, e1->e0, or both) starting at EVERY emission index of the exchange x {ack, unack, unack+closure} x 4 NAK procedures x timer grid {(Ti,Ta,Tn,L)} x sizes {0, 40, 100} (complete); cancel = user cancel at either entity at a random index followed by a cut; rand = up to 12 random faults plus optional loss of every PDU of one kind; prompt = Prompt(NAK/keep-alive) requests of the sending user at random points, also while the receiver waits for the ACK of a Finished PDU that the link loses or delays; plus the C02 single-fault placements. Every run ends with a probe transfer and Report over a healed link. distinct_nontrivial = distinct (config, size, event-order) signatures among runs where a fault fired and at least one task was judged.".into(),
+        rule: "blackout = link cut (e0->e1, e1->e0, or both) starting at EVERY emission index of the exchange x {ack, unack, unack+closure} x 4 NAK procedures x timer grid {(Ti,Ta,Tn,L)} x sizes {0, 40, 100} (complete); cancel = user cancel at either entity at a random index followed by a cut; rand = up to 12 random faults plus optional loss of every PDU of one kind; prompt = Prompt(NAK/keep-alive) requests of the sending user at random points, also while the receiver waits for the ACK of a Finished PDU that the link loses or delays; primseq = sequences of user primitives (cancel/suspend/resume/prompt in 8 orders) at either entity at a random point, with the link going dark at a random point; plus the C02 single-fault placements. Every run ends with a probe transfer and Report over a healed link. distinct_nontrivial = distinct (config, size, event-order) signatures among runs where a fault fired and at least one task was judged.".into(),
         exhaustive: false,
         assumptions: vec!["timeouts >= 1 s".into(), "bound B = 2L(Ti+Ta+Tn)+d+4D+10 s after the last PDU/primitive delivered to the task; observation window 3B".into(), "task end is observed through the cfg-guarded TaskGuard drop hook (H3), spin through its tick counter".into()],
         require: vec![("c03_tasks_ended_in_bound".into(), 1000), ("c03_probes".into(), 500)],
@@ -787,6 +848,8 @@ pub fn run_c03(tier: &str, seed: u64, replay: Option<&str>) -> (Meta, Report) {
     rep.add("cases:rand", nr as u64);
     rep.merge(run_cases(nr / 2, "c03-prompt", move |i| c03_case("prompt", i, seed), judge_c03));
     rep.add("cases:prompt", (nr / 2) as u64);
+    rep.merge(run_cases(nr, "c03-primseq", move |i| c03_case("primseq", i, seed), judge_c03));
+    rep.add("cases:primseq", nr as u64);
     let n1 = c02_sys1_space().len();
     let st2 = if thorough { 1 } else { 5 };
     let m2 = n1 / st2;
